@@ -266,7 +266,11 @@ def vtable(R, fns):
     for name, under, size_expr in (("s_trace_mem_acquire", "aws_mem_acquire", "size"), ("s_trace_mem_calloc", "aws_mem_calloc", "(num * size)")):
         f = fns[name]
         dom = dominators(f)
-        u = single(R, f, under, "call to the wrapped allocator")
+        us = f.calls(under)
+        others = [e for e in f.all_events() if e.kind == "call" and e not in us and ((e.node.get("callee") or "") in ("aws_mem_acquire", "aws_mem_calloc", "aws_mem_realloc", "malloc", "calloc") or (e.node.get("callee") is None and (RU.indirect_via(f, e.node) or ("", ""))[1] in ("mem_acquire", "mem_calloc", "mem_realloc")))]
+        R.check(len(us) == 1 and not others, "VTABLE", "%s:allocates-through-%s" % (name, under), where(f, (us or others or [None])[0]) if (us or others) else name, "the memory comes from %s on the wrapped allocator and nothing else" % under,
+                "%s obtains memory other than through one %s call (%s): the zeroing / overflow handling that function provides for allocators without the optional entry is lost" % (name, under, [f.show(e.node)[:50] for e in others]))
+        u = us[0] if len(us) == 1 else None
         t = single(R, f, "s_alloc_tracer_track", "track call")
         if not (u and t):
             continue
@@ -316,21 +320,47 @@ def vtable(R, fns):
     f = fns["s_trace_mem_realloc"]
     dom = dominators(f)
     un = single(R, f, "s_alloc_tracer_untrack", "untrack")
-    re_ = single(R, f, "aws_mem_realloc", "realloc on the wrapped allocator")
+    res = f.calls("aws_mem_realloc")
+    R.require(len(res) >= 1, "s_trace_mem_realloc: no realloc on the wrapped allocator")
+    # every wrapped realloc (the booked one, and any fast path next to it) forwards the sizes and is followed only by
+    # returns of the very pointer variable it updated
+    for c in res:
+        newp_c = argstr(f, c.node, 1)
+        after = RU.reach_from(f, c)
+        for r in f.returns():
+            if r in after:
+                R.check(bool(r.node["a"]) and f.show(r.node["a"][0]) == newp_c, "VTABLE", "realloc:returns-new-pointer", where(f, r), "returns the reallocated pointer",
+                        "after aws_mem_realloc(.., &%s, ..) the function returns %s: the caller gets the old, possibly released, block" % (newp_c, f.show(r.node["a"][0]) if r.node["a"] else None))
+        R.check([argstr(f, c.node, i, addr=False) for i in (2, 3)] == ["old_size", "new_size"], "VTABLE", "realloc:sizes-forwarded", where(f, c), "sizes forwarded unchanged")
+    none_ = 0  # AWS_MEMTRACE_NONE
+
+    def off_only(c):
+        """reached only with tracing off (tracer->level == AWS_MEMTRACE_NONE): track / untrack do nothing there"""
+        for c_, p_, b_ in RU.guards(f, c, dom):
+            g = RU.cmp_norm(f, c_, p_)
+            if g and g[1] == "==" and (g[2] is None or f.is_const(RU.uncast(f, g[2])) == none_):
+                l_ = RU.uncast(f, g[0])
+                if l_ is not None and l_["k"] == "member" and l_["f"] == "level":
+                    return True
+        return False
+    fast = [c for c in res if off_only(c)]
+    booked = [c for c in res if c not in fast and un and ev_dominates(f, un, c, dom)]
+    re_ = res[0] if len(res) == 1 else None
+    if len(res) > 1:
+        R.check(len(booked) + len(fast) == len(res) and len(booked) == 1, "VTABLE", "realloc:untrack-realloc-track", where(f, res[0]), "every wrapped realloc with tracing on is preceded by untrack(old)",
+                "a realloc on the wrapped allocator is not preceded by untrack(old): the record of the old address outlives the block")
+        re_ = booked[0] if booked else None
     tr = single(R, f, "s_alloc_tracer_track", "track")
     if un and re_ and tr:
         R.check(ev_dominates(f, un, re_, dom) and ev_dominates(f, re_, tr, dom), "VTABLE", "realloc:untrack-realloc-track", where(f, re_),
                 "untrack(old) precedes the realloc, track(new) follows it", "realloc bookkeeping is not ordered untrack -> realloc -> track: the old address can be reused by another thread while its record still exists")
         for ev in (un, re_, tr):
-            R.check(once_on_all_paths(f, ev) == {1}, "VTABLE", "realloc:%s-exactly-once" % ev.node["callee"], where(f, ev), "executed exactly once on every path",
+            R.check(once_on_all_paths(f, ev) == {1} or (bool(fast) and once_on_all_paths(f, ev) <= {0, 1}), "VTABLE", "realloc:%s-exactly-once" % ev.node["callee"], where(f, ev), "executed exactly once on every path",
                     "%s is skipped or repeated on some path" % ev.node["callee"])
         R.check(argstr(f, un.node, 1, addr=False) == "old_ptr", "VTABLE", "realloc:untracks-old", where(f, un), "old pointer untracked")
         newp = argstr(f, re_.node, 1)
         R.check(argstr(f, tr.node, 1, addr=False, alias=False) == newp and argstr(f, tr.node, 2, addr=False) == "new_size", "VTABLE", "realloc:tracks-new", where(f, tr),
                 "track(%s, new_size)" % newp, "track is given (%s, %s)" % (argstr(f, tr.node, 1, addr=False), argstr(f, tr.node, 2, addr=False)))
-        R.check([argstr(f, re_.node, i, addr=False) for i in (2, 3)] == ["old_size", "new_size"], "VTABLE", "realloc:sizes-forwarded", where(f, re_), "sizes forwarded unchanged")
-        for r in f.returns():
-            R.check(r.node["a"] and f.show(r.node["a"][0]) == newp, "VTABLE", "realloc:returns-new-pointer", where(f, r), "returns the reallocated pointer")
 
 
 def assignment_of(f, ev):
